@@ -456,3 +456,88 @@ func checkBasis(c basisCase, o *kit.Obs) error {
 	}
 	return nil
 }
+
+// ---------------------------------------------------------------------------
+// SVD of small-integer matrices: symmetric, circulant and plain ones.  Columns with exactly equal norms, exact ties
+// between singular values and exact rank deficiency are the rule here, not the exception.
+
+type intSVDCase struct {
+	N    int    `json:"n"`
+	Impl string `json:"impl"`
+	Kind string `json:"kind"` // plain symmetric circulant
+	E    []int  `json:"e"`
+}
+
+func genIntSVD(t *rapid.T) intSVDCase {
+	c := intSVDCase{N: rapid.SampledFrom([]int{2, 3, 4, 4}).Draw(t, "n"), Impl: rapid.SampledFrom([]string{"numerical", "model"}).Draw(t, "impl"),
+		Kind: rapid.SampledFrom([]string{"plain", "symmetric", "circulant"}).Draw(t, "kind")}
+	for i := 0; i < c.N*c.N; i++ {
+		c.E = append(c.E, rapid.IntRange(-3, 3).Draw(t, "e"))
+	}
+	return c
+}
+
+func checkIntSVD(c intSVDCase, o *kit.Obs) error {
+	n := c.N
+	if n < 2 || n > 4 || len(c.E) != n*n {
+		return fmt.Errorf("%w: malformed case", kit.ErrInfra)
+	}
+	m := newD(n)
+	for i := 0; i < n; i++ {
+		for j := 0; j < n; j++ {
+			v := float64(c.E[i*n+j])
+			switch c.Kind {
+			case "symmetric":
+				if j < i {
+					v = float64(c.E[j*n+i])
+				}
+			case "circulant":
+				v = float64(c.E[((j-i)%n+n)%n])
+			}
+			m.set(i, j, v)
+		}
+	}
+	o.Label("kind:" + c.Kind)
+	o.Labelf("n:%d", n)
+	mc := matCase{N: n, Impl: c.Impl}
+	if n == 4 {
+		mc.Impl = "numerical"
+	}
+	scale := 1.0
+	for _, x := range m.a {
+		scale = math.Max(scale, math.Abs(x))
+	}
+	u, s, v := libSVD(mc, m)
+	for _, x := range append(append(append([]float64{}, u.a...), s.a...), v.a...) {
+		if math.IsNaN(x) || math.IsInf(x, 0) {
+			return fmt.Errorf("SVD of the integer matrix %v has a non-finite entry", m.a)
+		}
+	}
+	o.NonTrivial()
+	// the closed forms for n <= 3 go through characteristic polynomials with (here: exactly) repeated roots, where
+	// the library itself grants 1e-4 (see svdTol); the Jacobi iteration for n = 4 is held to 1e-8
+	tol := 1e-3
+	if n == 4 {
+		tol = 1e-8
+	}
+	for i := 0; i < n; i++ {
+		for j := 0; j < n; j++ {
+			if i != j && s.at(i, j) != 0 {
+				return fmt.Errorf("S[%d][%d] = %g, want a diagonal matrix; M=%v", i, j, s.at(i, j), m.a)
+			}
+		}
+		if !(s.at(i, i) >= 0) || (i > 0 && s.at(i, i) > s.at(i-1, i-1)+tol*scale) {
+			return fmt.Errorf("singular values %v are not non-negative and descending; M=%v", s.a, m.a)
+		}
+	}
+	if e := maxDiffD(mulD(tD(u), u), identD(n)); !(e <= tol) {
+		return fmt.Errorf("U^T U differs from the identity by %g (tolerance %g); integer matrix M=%v U=%v", e, tol, m.a, u.a)
+	}
+	if e := maxDiffD(mulD(tD(v), v), identD(n)); !(e <= tol) {
+		return fmt.Errorf("V^T V differs from the identity by %g (tolerance %g); integer matrix M=%v V=%v", e, tol, m.a, v.a)
+	}
+	if e := maxDiffD(mulD(mulD(u, s), tD(v)), m); !(e <= tol*scale) {
+		return fmt.Errorf("U*S*V^T differs from M by %g (tolerance %g); integer matrix M=%v", e, tol*scale, m.a)
+	}
+	return nil
+}
